@@ -3,6 +3,7 @@
 pub mod aes;
 pub mod b58;
 pub mod hashes;
+pub mod interp;
 pub mod script;
 pub mod secp;
 pub mod sighash;
@@ -17,6 +18,7 @@ pub fn selftest() -> Result<usize, String> {
     n += b58::selftest()?;
     n += wire::selftest()?;
     n += sighash::selftest()?;
+    n += interp::selftest()?;
     Ok(n)
 }
 
